@@ -148,7 +148,24 @@ fn apply_to_it(env: &Env, f: &syn::Expr) -> Option<String> {
 
 /// the three spellings of "map the optional value": `X.map(F)`, `match X { Some(v) => Some(G), None => None }` and
 /// `let v = X?; Some(G)` are all written `X.map(|it|G)`
+/// `X.map(|it| <a view of it>)` (`it.as_str()`, `String::as_str(it)`, `it.as_ref()`, `&**it`, `it.deref()`) is `X.as_deref()`;
+/// a receiver `X.as_ref()` under it is `X`
+fn view_map_as_deref(s: String) -> String {
+    for g in ["it.as_str()", "String::as_str(it)", "it.as_ref()", "**it", "it.deref()", "it.borrow()", "Deref::deref(it)", "AsRef::as_ref(it)"] {
+        let suffix = format!(".map(|it|{g})");
+        if let Some(x) = s.strip_suffix(&suffix) {
+            let x = x.strip_suffix(".as_ref()").unwrap_or(x);
+            return format!("{x}.as_deref()");
+        }
+    }
+    s
+}
+
 fn option_map_form(env: &Env, stmts: &[syn::Stmt]) -> Option<String> {
+    option_map_form_raw(env, stmts).map(view_map_as_deref)
+}
+
+fn option_map_form_raw(env: &Env, stmts: &[syn::Stmt]) -> Option<String> {
     match stmts {
         [syn::Stmt::Expr(e, None)] => {
             let e = strip_ref(e);
